@@ -264,7 +264,7 @@ def m_box_into_vec(eng, m, args, dest_ts, st, where):
     vty = eng.ty(dest_ts)
     if n > vty.cap:
         raise BoundExceeded('vec![..] of %d elements, capacity %d' % (n, vty.cap))
-    return Vc(vty, bv(n, 64), [arr.fs[i] if i < n else None for i in range(vty.cap)])
+    return Vc(vty, bv(n, 64), [arr.fs[i] if i < n else None for i in range(vty.cap)], n)
 
 
 @model('Default::default', r'^<\((.+)\) as Default>::default$')
@@ -275,9 +275,22 @@ def m_default(eng, m, args, dest_ts, st, where):
 # ---------------------------------------------------------------------------------------------- Vec
 def vec_push(eng, v, x, pc, where):
     cap = v.ty.cap
-    eng.bound_exceeded(where + ': Vec::push beyond capacity %d' % cap, AND(pc, z3.UGE(v.len, cap)))
-    slots = [ite(v.len == i, x, v.slots[i]) if v.slots[i] is not None else x for i in range(cap)]
-    return Vc(v.ty, z3.If(z3.UGE(v.len, cap), v.len, v.len + 1), slots)
+    n = min(cap, v.n + 1)
+    if v.n >= cap:
+        eng.bound_exceeded(where + ': Vec::push beyond capacity %d' % cap, AND(pc, z3.UGE(v.len, cap)))
+    slots = []
+    for i in range(cap):
+        if i >= n:
+            slots.append(None)
+        elif v.slots[i] is None:
+            slots.append(x)
+        else:
+            slots.append(ite(v.len == i, x, v.slots[i]))
+    ln = z3.If(z3.UGE(v.len, cap), v.len, v.len + 1) if v.n >= cap else v.len + 1
+    ln = z3.simplify(ln)
+    if not z3.is_bv_value(ln):
+        eng.fact(z3.ULE(ln, n))
+    return Vc(v.ty, ln, slots, n)
 
 
 @model('Vec::new', r'^Vec::<(.+)>::new$')
@@ -313,7 +326,7 @@ def m_vec_pop(eng, m, args, dest_ts, st, where):
         res = mk_variant(oty, 'None')
     else:
         res = ite(v.len == 0, mk_variant(oty, 'None'), mk_variant(oty, 'Some', [val]))
-    eng.write_ref(st, r, lambda old: Vc(v.ty, z3.If(v.len == 0, v.len, v.len - 1), v.slots))
+    eng.write_ref(st, r, lambda old: Vc(v.ty, z3.simplify(z3.If(v.len == 0, v.len, v.len - 1)), v.slots, v.n))
     return res
 
 
@@ -322,19 +335,27 @@ def m_vec_append(eng, m, args, dest_ts, st, where):
     ra, rb = args[0], args[1]
     a, b = eng.read_ref(st, ra), eng.read_ref(st, rb)
     cap = a.ty.cap
-    eng.bound_exceeded(where + ': Vec::append beyond capacity %d' % cap, AND(st.pc, z3.UGT(a.len + b.len, cap)))
+    n = min(cap, a.n + b.n)
+    if a.n + b.n > cap:
+        eng.bound_exceeded(where + ': Vec::append beyond capacity %d' % cap, AND(st.pc, z3.UGT(a.len + b.len, cap)))
     new = []
     for i in range(cap):
-        val = a.slots[i]
-        for j in range(min(i + 1, b.ty.cap)):
-            if b.slots[j] is None:
+        if i >= n:
+            new.append(None)
+            continue
+        val = a.slots[i] if i < a.n else None
+        for j in range(min(i + 1, b.n)):
+            if b.slots[j] is None or i - j > a.n:
                 continue
             c = AND(a.len == i - j, z3.UGT(b.len, j))
             val = b.slots[j] if val is None else ite(c, b.slots[j], val)
         new.append(val)
-    tot = a.len + b.len
-    eng.write_ref(st, ra, lambda old: Vc(a.ty, z3.If(z3.UGT(tot, cap), bv(cap, 64), tot), new))
-    eng.write_ref(st, rb, lambda old: Vc(b.ty, bv(0, 64), b.slots))
+    tot = z3.simplify(a.len + b.len)
+    ln = z3.If(z3.UGT(tot, cap), bv(cap, 64), tot) if a.n + b.n > cap else tot
+    if not z3.is_bv_value(ln):
+        eng.fact(z3.ULE(ln, n))
+    eng.write_ref(st, ra, lambda old: Vc(a.ty, ln, new, n))
+    eng.write_ref(st, rb, lambda old: Vc(b.ty, bv(0, 64), [None] * b.ty.cap, 0))
     return UNITV
 
 
